@@ -22,6 +22,29 @@ sys.path.insert(0, REPO)
 
 
 def _cpu(body):
+    """C03/C04.  Induction units (loop rule): the counter-model is a havoced mid-loop state, not an
+    instruction input; a few whole-instruction inputs derived from it are tried natively, and when
+    none fails the answer is 'no failing input found' (exit 4), never 'holds'."""
+    unit, model = body["unit"], body["model"]
+    if not unit.get("induction") or model is None:
+        return _cpu_once(body)
+    j = model.get("j", 0)
+    cands = []
+    for n in (model.get("I", 0), j + 1, j + 2, 2, 3, 5):
+        if 1 <= n <= 300 and n not in cands:
+            cands.append(n)
+    tried = []
+    for n in cands:
+        for f in dict.fromkeys((model.get("F", 0), model.get("hF", 0), model.get("F", 0) ^ 1)):
+            b = dict(body, unit=dict(unit, block_n=n, induction=False), model=dict(model, F=f))
+            code, text = _cpu_once(b)
+            tried.append(f"I={n},F={f:#x}: {text[:80]}")
+            if code == 1:
+                return 1, f"(whole instruction, I={n}, F={f:#x}) " + text
+    return 4, "loop-rule obligation failed; no whole-instruction input derived from the counter-model fails natively: " + " | ".join(tried[:4])
+
+
+def _cpu_once(body):
     import z3
     from binja_test_mocks import binja_api  # noqa: F401
     from sc62015.pysc62015 import emulator as EMU
@@ -312,6 +335,44 @@ def handler(*props):
     return deco
 
 
+def _snapshot(body):
+    """C13 snapshot restore point, natively: real save_snapshot / load_snapshot through a real file."""
+    unit, model = body["unit"], body["model"]
+    if model is None or unit.get("kind") != "snapshot-restore":
+        return 4, "no native replayer for this obligation"
+    import os
+    import tempfile
+    from binja_test_mocks import binja_api  # noqa: F401
+    import pce500.emulator as PE
+
+    def sgn(v):
+        return v
+
+    a = PE.PCE500Emulator(save_lcd_on_exit=False)
+    vals = {k: int(model.get(k, 0)) for k in ("mp", "sp", "nm", "ns", "cyc")}
+    en = bool(model.get("enabled", True))
+    a._scheduler.mti_period, a._scheduler.sti_period = vals["mp"], vals["sp"]
+    a._scheduler._next_mti, a._scheduler._next_sti = vals["nm"], vals["ns"]
+    a._scheduler.enabled = en
+    a._timer_enabled = en
+    a.cycle_count = vals["cyc"]
+    a._in_interrupt = bool(unit.get("in_interrupt", False))
+    with tempfile.TemporaryDirectory(prefix="symx_snap_") as tmp:
+        p = os.path.join(tmp, "s.pcsnap")
+        a.save_snapshot(p)
+        b = PE.PCE500Emulator(save_lcd_on_exit=False)
+        b.load_snapshot(p)
+    s = b._scheduler
+    got = dict(mp=s.mti_period, sp=s.sti_period, nm=s.next_mti, ns=s.next_sti, cyc=b.cycle_count)
+    bad = [f"{k}: saved {vals[k]}, restored {got[k]}" for k in vals if vals[k] != got[k]]
+    if bool(s.enabled) != en:
+        bad.append(f"enabled: saved {en}, restored {s.enabled}")
+    if bad:
+        return 1, "snapshot round trip changes the timer state: " + "; ".join(bad)
+    return 0, "snapshot round trip preserves the timer state natively"
+
+
+handler("C13")(_snapshot)
 handler("C03", "C04")(_cpu)
 handler("C07")(_cpu_hist)
 handler("C08")(_regs)
